@@ -180,7 +180,8 @@ def save_replay(pid: str, v: dict, base=None) -> str:
     return str(p.relative_to(VERIF)) if not base else str(p)
 
 
-def drive(ctx: Ctx, sub: str, strategy, check, max_examples: int, tag: str = "", shrink: bool = True):
+def drive(ctx: Ctx, sub: str, strategy, check, max_examples: int, tag: str = "", shrink: bool = True,
+          flaky_is_violation: bool = False):
     """Run `check(ctx, case)` on `max_examples` cases drawn from `strategy` under Hypothesis.
 
     The case is an explicit JSON-friendly value, so the minimal failing example *is* the replay.
@@ -213,12 +214,23 @@ def drive(ctx: Ctx, sub: str, strategy, check, max_examples: int, tag: str = "",
             ctx.inconc(str(e)[:80])
         except Skip:
             pass
+        except Violation as v:
+            last["violation"] = v
+            raise
 
     try:
         test()
     except Violation as v:
         ctx.violations.append({"key": v.key, "what": v.what, "sub": v.sub, "case": v.case})
-    except hypothesis.errors.Flaky as e:  # a flaky oracle is a harness defect, never a verdict
+    except hypothesis.errors.Flaky as e:
+        v = last.get("violation")
+        if flaky_is_violation and v is not None:
+            # the property itself is "two runs agree": a failure that does not reproduce on re-execution is still two
+            # executions of the real code that disagreed (e.g. a thread race) - reported, marked as non-reproducible
+            ctx.violations.append({"key": v.key + "/nondeterministic", "what": v.what + " [did not reproduce on immediate "
+                                   "re-execution: timing-dependent]", "sub": v.sub, "case": v.case})
+            return
+        # elsewhere a flaky oracle is a harness defect, never a verdict
         raise RuntimeError(f"flaky check {sub}: {e}") from e
 
 
